@@ -53,7 +53,7 @@ CHECKS = {
          "DESIGN.md section 5 (C06)"),
  "C10": ("exploration",
          "exhaustive enumeration of successful messages up to k units x separators x endings, byte-exact comparison with reference framing on Vec and ArrayVec buffers",
-         "Every sequence of up to 3 (quick) / 6 (thorough) units over 20 unit kinds (events, queries with 1-5 data of all types, one- and two-level response headers, a long header with one short datum, a comma-joined list from a partially filled ArrayVec as one element between others, relative/common headers) x 3 unit-separator spellings x 8 message endings; the output buffer must equal the hand-written unit texts joined by `;` with exactly one NL iff there is output. Directed additions: a unit with 300 data elements, data ending in `;` or NL, long quoted strings and error items.",
+         "Every sequence of up to 3 (quick) / 6 (thorough) units over 21 unit kinds (events in compound and in common-command form, queries with 1-5 data of all types, one- and two-level response headers, a long header with one short datum, a comma-joined list from a partially filled ArrayVec as one element between others, relative/common headers) x 3 unit-separator spellings x 8 message endings; the output buffer must equal the hand-written unit texts joined by `;` with exactly one NL iff there is output. Directed additions: a unit with 300 data elements, data ending in `;` or NL, long quoted strings and error items.",
          "Trusted: the hand-written expected response text per unit kind. How an empty response unit is framed is not judged.",
          "DESIGN.md section 5 (C10)"),
  "C11": ("fault_enumeration",
